@@ -9,8 +9,15 @@ Open Scope N_scope.
 (* ---- Part A: string bodies ---- *)
 Definition esc (s : text) : text := flat_map esc_char s.
 
-Definition scalar (c : N) : Prop := c < 55296 \/ (57344 <= c /\ c < 1114112).     (* a Unicode scalar value *)
-Definition wf_str (s : text) : Prop := Forall scalar s.
+(* a Python str that json round-trips: code points below 0x110000, and no high surrogate directly followed by a low one
+   (json.dumps writes the two as \uD8xx\uDCxx, which json.loads - like CPython itself - reads as ONE character).
+   Lone surrogates are fine. *)
+Fixpoint no_pair (s : text) : Prop :=
+  match s with
+  | c :: t => match t with d :: _ => (is_high c = true -> is_low d = false) | [] => True end /\ no_pair t
+  | [] => True
+  end.
+Definition wf_str (s : text) : Prop := Forall (fun c => c < 1114112) s /\ no_pair s.
 
 Lemma jhexval_hexdigL n : n < 16 -> jhexval (hexdigL n) = Some n.
 Proof.
@@ -98,24 +105,59 @@ Proof.
   unfold short_esc. intros H. destruct (N.eqb_spec c 34); [discriminate|]. destruct (N.eqb_spec c 92); [discriminate|]. split; assumption.
 Qed.
 
+Lemma is_low_not_high v : is_low v = true -> is_high v = false.
+Proof.
+  unfold is_low, is_high. intros H. apply andb_prop in H. destruct H as [H _]. apply N.leb_le in H.
+  apply andb_false_iff. right. apply N.leb_gt. lia.
+Qed.
+
+(* what a \uXXXX escape at the head of the rest of an escaped string can be *)
+Lemma u_escape_esc s : match s with d :: _ => d < 1114112 | [] => True end ->
+  match u_escape (esc s) with
+  | Some (v2, _) => match s with d :: _ => is_low v2 = true -> is_low d = true | [] => False end
+  | None => True
+  end.
+Proof.
+  destruct s as [|d s']; intros Hd; [exact I|]. change (esc (d :: s')) with (esc_char d ++ esc s'). unfold esc_char.
+  destruct (short_esc d) as [l|] eqn:Es.
+  { destruct (short_esc_spec d l Es) as (Hl & _ & _). cbn [app u_escape]. destruct (esc s') as [|x1 [|x2 [|x3 [|x4 r]]]]; try exact I.
+    change (92 =? 92) with true. rewrite Hl. exact I. }
+  destruct ((d <? 32) || (127 <=? d)) eqn:Ee.
+  - destruct (N.ltb_spec d 65536) as [Hb|Hb].
+    + destruct (u4_shape d Hb) as (x1 & x2 & x3 & x4 & Eu & Hx). rewrite Eu. cbn [app u_escape].
+      change (92 =? 92) with true. change (117 =? 117) with true. cbn [andb]. rewrite Hx. intros H. exact H.
+    + set (v := d - 65536). assert (Hq: v / 1024 < 1024) by (apply N.div_lt_upper_bound; unfold v; lia).
+      destruct (u4_shape (55296 + v / 1024) ltac:(lia)) as (x1 & x2 & x3 & x4 & Eu & Hx). fold v. rewrite Eu. cbn [app u_escape].
+      change (92 =? 92) with true. change (117 =? 117) with true. cbn [andb]. rewrite Hx. intros H. exfalso.
+      unfold is_low in H. apply andb_prop in H. destruct H as [H _]. apply N.leb_le in H. lia.
+  - cbn [app u_escape]. destruct (short_esc_none d Es) as [_ E92]. destruct (esc s') as [|x1 [|x2 [|x3 [|x4 [|x5 r]]]]]; try exact I.
+    replace (d =? 92) with false by (symmetry; apply N.eqb_neq; exact E92). exact I.
+Qed.
+
 Theorem unescape_esc : forall s, wf_str s -> forall f, (length (esc s) <= f)%nat -> unescape f (esc s) = Some s.
 Proof.
-  induction s as [|c s IH]; intros Hw f Hf.
+  induction s as [|c s IH]; intros [Hb Hp] f Hf.
   - destruct f; reflexivity.
-  - inversion Hw as [|? ? Hc Hs]; subst. specialize (IH Hs).
+  - inversion Hb as [|? ? Hc Hs]; subst. cbn [no_pair] in Hp. destruct Hp as [Hpair Hp']. specialize (IH (conj Hs Hp')).
     change (esc (c :: s)) with (esc_char c ++ esc s) in *. rewrite app_length in Hf. unfold esc_char in *.
     destruct (short_esc c) as [l|] eqn:Es.
     { destruct (short_esc_spec c l Es) as (Hl & Hv & _). cbn [app length] in *. destruct f as [|f]; [lia|].
       rewrite (unescape_step_short f l c (esc s) Hl Hv). rewrite IH by lia. reflexivity. }
     destruct ((c <? 32) || (127 <=? c)) eqn:Ee.
-    + destruct (N.ltb_spec c 65536) as [Hb|Hb].
-      * destruct (u4_shape c Hb) as (x1 & x2 & x3 & x4 & Eu & Hx). rewrite Eu in *. cbn [app length] in *.
-        destruct f as [|f]; [lia|]. rewrite (unescape_step_u f x1 x2 x3 x4 c (esc s) Hx).
-        -- rewrite IH by lia. reflexivity.
-        -- unfold is_high. destruct Hc as [Hc|[Hc _]]; [apply andb_false_iff; left; apply N.leb_gt; lia|
-                                                        apply andb_false_iff; right; apply N.leb_gt; lia].
-      * destruct Hc as [Hc|[_ Hc]]; [lia|].
-        set (v := c - 65536) in *.
+    + destruct (N.ltb_spec c 65536) as [Hlt|Hge].
+      * destruct (u4_shape c Hlt) as (x1 & x2 & x3 & x4 & Eu & Hx). rewrite Eu in *. cbn [app length] in *.
+        destruct f as [|f]; [lia|]. destruct (is_high c) eqn:Hh.
+        -- (* a lone high surrogate: whatever follows is not a low surrogate escape *)
+           cbn [unescape]. change (92 =? 92) with true. change (117 =? 117) with true. cbv iota. rewrite Hx, Hh.
+           pose proof (u_escape_esc s) as U.
+           assert (Hd: match s with d :: _ => d < 1114112 | [] => True end) by (destruct s; [exact I|inversion Hs; assumption]).
+           specialize (U Hd). destruct (u_escape (esc s)) as [[v2 t3]|].
+           ++ destruct s as [|d s']; [contradiction|]. destruct (is_low v2) eqn:Hl2.
+              ** specialize (U eq_refl). rewrite (Hpair eq_refl) in U. discriminate.
+              ** rewrite IH by lia. reflexivity.
+           ++ rewrite IH by lia. reflexivity.
+        -- rewrite (unescape_step_u f x1 x2 x3 x4 c (esc s) Hx Hh). rewrite IH by lia. reflexivity.
+      * set (v := c - 65536) in *.
         assert (Hq: v / 1024 < 1024) by (apply N.div_lt_upper_bound; lia).
         assert (Hm: v mod 1024 < 1024) by (apply N.mod_lt; lia).
         destruct (u4_shape (55296 + v / 1024) ltac:(lia)) as (x1 & x2 & x3 & x4 & Eu & Hx).
@@ -654,13 +696,6 @@ Proof.
 Qed.
 
 (* ---- nesting depth ---- *)
-Fixpoint jdepth (j : json) : nat :=
-  match j with
-  | JArr l => S (fold_right (fun x m => Nat.max (jdepth x) m) O l)
-  | JObj l => S (fold_right (fun kv m => Nat.max (jdepth (snd kv)) m) O l)
-  | _ => O
-  end.
-
 Definition md_ok (j : json) : Prop := forall cur best rest, (cur <= best)%nat ->
   max_depth cur best (toks j ++ rest) = max_depth cur (Nat.max best (cur + jdepth j)) rest.
 
@@ -797,4 +832,53 @@ Proof.
   - destruct Hw as [Hw _]. apply wfj_arr in Hw. induction ls as [|l t IH]; cbn [map]; constructor.
     + apply printed_object_complete. inversion Hw; subst. apply wfj_no_float. assumption.
     + apply IH. inversion Hw; assumption.
+Qed.
+
+(* ---- the decidable well-formedness check is sound ---- *)
+Lemma text_eqb_true_iff a b : text_eqb a b = true <-> a = b.
+Proof.
+  split.
+  - revert b; induction a as [|x a IH]; destruct b as [|y b]; cbn [text_eqb]; intros H; try discriminate; [reflexivity|].
+    apply andb_prop in H. destruct H as [H1 H2]. apply N.eqb_eq in H1. f_equal; auto.
+  - intros <-. induction a as [|x a IH]; [reflexivity|]. cbn [text_eqb]. rewrite N.eqb_refl, IH. reflexivity.
+Qed.
+
+Lemma nodupb_sound l : nodupb l = true -> NoDup l.
+Proof.
+  induction l as [|x t IH]; intros H; [constructor|]. cbn [nodupb] in H. apply andb_prop in H. destruct H as [H1 H2].
+  constructor; [|apply IH; exact H2]. intros Hin. apply negb_true_iff in H1.
+  assert (existsb (text_eqb x) t = true) as E; [|congruence].
+  apply existsb_exists. exists x. split; [exact Hin|apply text_eqb_true_iff; reflexivity].
+Qed.
+
+Lemma no_pairb_sound s : no_pairb s = true -> no_pair s.
+Proof.
+  induction s as [|c t IH]; intros H; [exact I|]. cbn [no_pairb] in H. apply andb_prop in H. destruct H as [H1 H2].
+  cbn [no_pair]. split; [|apply IH; exact H2]. destruct t as [|d t']; [exact I|]. intros Hh. rewrite Hh in H1. cbn [andb negb] in H1.
+  apply negb_true_iff in H1. exact H1.
+Qed.
+
+Lemma wf_strb_sound s : wf_strb s = true -> wf_str s.
+Proof.
+  unfold wf_strb, wf_str. intros H. apply andb_prop in H. destruct H as [H1 H2]. split; [|apply no_pairb_sound; exact H2].
+  rewrite forallb_forall in H1. rewrite Forall_forall. intros c Hc. apply N.ltb_lt. apply H1. exact Hc.
+Qed.
+
+Theorem wfjb_sound : forall j, wfjb j = true -> wfj j.
+Proof.
+  induction j as [| b | z | r | s | l IH | l IH] using json_ind2; intros H; cbn [wfjb] in H.
+  - exact I.
+  - exact I.
+  - unfold digits_okb in H. apply Nat.leb_le in H. exact H.
+  - discriminate.
+  - apply wf_strb_sound. exact H.
+  - apply wfj_arr. rewrite forallb_forall in H. rewrite Forall_forall in *. intros x Hx. apply IH; [exact Hx|apply H; exact Hx].
+  - apply andb_prop in H. destruct H as [H1 H2]. apply wfj_obj. split; [|apply nodupb_sound; exact H2].
+    rewrite forallb_forall in H1. rewrite Forall_forall in *. intros kv Hkv. specialize (H1 kv Hkv). apply andb_prop in H1. destruct H1 as [Hk Hv].
+    split; [apply wf_strb_sound; exact Hk|apply IH; [exact Hkv|exact Hv]].
+Qed.
+
+Theorem wf_jsonb_sound j : wf_jsonb j = true -> wf_json j.
+Proof.
+  unfold wf_jsonb, wf_json. intros H. apply andb_prop in H. destruct H as [H1 H2]. split; [apply wfjb_sound; exact H1|apply Nat.leb_le; exact H2].
 Qed.
